@@ -14,10 +14,9 @@ namespace ModVerif.Props.C18
 open ModVerif ModVerif.PseudoSpec ModVerif.Proofs.Pseudo
 open ModVerif.Pseudo hiding isDigit isAlnum
 
-/-- the admissible (major, base) pairs: a valid base version (major is then ignored), or no base and a
-    major version prefix -/
-def Admissible (major older : Bytes) : Prop :=
-  Semver.isValid older = true ∨ (older = [] ∧ MajorArg major)
+/-! The admissible (major, base) pairs are written out in each statement:
+    `Semver.isValid older = true` (a valid base version; `major` is then ignored by PseudoVersion), or
+    `older = [] ∧ MajorArg major` (no base, and a major version prefix). -/
 
 /-! ## incDecimal / decDecimal -/
 
@@ -42,16 +41,16 @@ example : Num (List.replicate 40 57) ∧ (incDecimal (List.replicate 40 57)).map
 /-- PseudoVersion never panics on admissible inputs, and its result is a valid version that
     IsPseudoVersion recognises. -/
 theorem pseudo_valid_and_recognised (major older ts rev : Bytes)
-    (hbase : Admissible major older) (hts : Ts ts) (hrev : Rev rev) :
+    (hbase : Semver.isValid older = true ∨ (older = [] ∧ MajorArg major)) (hts : Ts ts) (hrev : Rev rev) :
     ∃ pv, pseudoVersion major older ts rev = .ok pv ∧ Semver.isValid pv = true ∧ isPseudoVersion pv = true :=
   valid_recognised_aux hbase hts hrev
 
 /-- "v1.2.9-rc.1+incompatible", "20231114221320", "abc123" -/
-example : Admissible [] [118, 49, 46, 50, 46, 57, 45, 114, 99, 46, 49, 43, 105, 110, 99, 111, 109, 112, 97, 116, 105, 98, 108, 101]
+example : Semver.isValid [118, 49, 46, 50, 46, 57, 45, 114, 99, 46, 49, 43, 105, 110, 99, 111, 109, 112, 97, 116, 105, 98, 108, 101] = true
     ∧ Ts [50, 48, 50, 51, 49, 49, 49, 52, 50, 50, 49, 51, 50, 48] ∧ Rev [97, 98, 99, 49, 50, 51] :=
-  ⟨Or.inl (by decide), by decide, by decide⟩
+  ⟨by decide, by decide, by decide⟩
 /-- no base, major "v2" -/
-example : Admissible [118, 50] [] := Or.inr ⟨rfl, Or.inr ⟨[50], by decide, rfl⟩⟩
+example : MajorArg [118, 50] := Or.inr ⟨[50], by decide, rfl⟩
 
 /-! ## round trip -/
 
@@ -59,7 +58,7 @@ example : Admissible [118, 50] [] := Or.inr ⟨rfl, Or.inr ⟨[50], by decide, r
     suffix (the empty string when there is no base), PseudoVersionRev the revision, and
     PseudoVersionTime the time stamp (it fails exactly when the fourteen digits are not a date and time). -/
 theorem pseudo_roundtrip (major older ts rev : Bytes)
-    (hbase : Admissible major older) (hts : Ts ts) (hrev : Rev rev) :
+    (hbase : Semver.isValid older = true ∨ (older = [] ∧ MajorArg major)) (hts : Ts ts) (hrev : Rev rev) :
     ∃ pv, pseudoVersion major older ts rev = .ok pv ∧
       pseudoVersionBase pv = .ok (Semver.canonical older ++ Semver.build older) ∧
       pseudoVersionRev pv = .ok rev ∧
@@ -92,7 +91,7 @@ theorem pseudo_nobase_below (major ts rev : Bytes) (hm : MajorArg major) (hts : 
 
 /-- For the same (major, base), an earlier time stamp gives a strictly lower pseudo-version, whatever the
     two revisions are. -/
-theorem pseudo_time_mono (major older ts1 ts2 rev1 rev2 : Bytes) (hbase : Admissible major older)
+theorem pseudo_time_mono (major older ts1 ts2 rev1 rev2 : Bytes) (hbase : Semver.isValid older = true ∨ (older = [] ∧ MajorArg major))
     (h1 : Ts ts1) (h2 : Ts ts2) (r1 : Rev rev1) (r2 : Rev rev2) (hlt : bytesLt ts1 ts2 = true) :
     ∃ pv1 pv2, pseudoVersion major older ts1 rev1 = .ok pv1 ∧ pseudoVersion major older ts2 rev2 = .ok pv2 ∧
       Semver.compare pv1 pv2 = -1 :=
@@ -124,6 +123,30 @@ theorem timeValid_fmtTime (Y M D h m s : Nat) (hY : Y < 10000) (hM : 1 ≤ M ∧
   timeValid_fmtTime_aux hY hM hD hh hm hs
 
 example : (1 ≤ 29 ∧ 29 ≤ daysIn 2 2024) ∧ ¬ (29 ≤ daysIn 2 1900) := by decide
+
+/-- Every instant whose UTC year is 0001–9999 (Unix seconds -62135596800 … 253402300799) has civil fields in
+    range, so its stamp `formatUnix secs` is `fmtTime` of in-range fields: a `Ts`, ordered as `fmtTime_mono` says. -/
+theorem civilFromUnix_range (secs : Int) (h1 : -62135596800 ≤ secs) (h2 : secs ≤ 253402300799) :
+    1 ≤ (civilFromUnix secs).1 ∧ (civilFromUnix secs).1 ≤ 9999 ∧
+    1 ≤ (civilFromUnix secs).2.1 ∧ (civilFromUnix secs).2.1 ≤ 12 ∧
+    1 ≤ (civilFromUnix secs).2.2.1 ∧ (civilFromUnix secs).2.2.1 ≤ 31 ∧
+    (civilFromUnix secs).2.2.2.1 < 24 ∧ (civilFromUnix secs).2.2.2.2.1 < 60 ∧ (civilFromUnix secs).2.2.2.2.2 < 60 := by
+  simp only [civilFromUnix]
+  split <;> split <;> omega
+
+/-- the stamp of an instant in years 0001–9999 is a time stamp in the sense of the theorems above -/
+theorem formatUnix_ts (secs : Int) (h1 : -62135596800 ≤ secs) (h2 : secs ≤ 253402300799) : Ts (formatUnix secs) := by
+  obtain ⟨a1, a2, _, a4, _, a6, a7, a8, a9⟩ := civilFromUnix_range secs h1 h2
+  unfold formatUnix
+  generalize civilFromUnix secs = c at *
+  obtain ⟨y, m, d, hh, mm, ss⟩ := c
+  simp only at *
+  have hy : ¬ y < 0 := by omega
+  simp only [hy, if_false]
+  exact (fmtTime_mono_aux (Y' := 0) (M' := 0) (D' := 0) (h' := 0) (m' := 0) (s' := 0)
+    ⟨by omega, by omega, by omega, by omega, by omega, by omega⟩ ⟨by omega, by omega, by omega, by omega, by omega, by omega⟩).1
+
+example : (-62135596800 : Int) ≤ 1700000000 ∧ (1700000000 : Int) ≤ 253402300799 := by decide
 
 /-- The zero pseudo-version (time.Time{} and twelve zeros) is recognised as a pseudo-version and is
     exactly what IsZeroPseudoVersion accepts for its major version. -/
